@@ -771,3 +771,524 @@ Proof.
     cbn [mon_feed] in F2. destruct (mon_step m1 (NStop (clock b))) as [mx|]; [|discriminate].
     inversion F2; subst mx. exact K2.
 Qed.
+
+(* ------------------------------------------------------------------ *)
+(** * Every command preserves the invariant and is accepted by the monitor *)
+
+Lemma agrees_inv m r p :
+  mon_agrees m r p = true ->
+  m_live m = rs_initialized r /\
+  m_sr m = (match p with PStarted | PEnding | PEnded => true | _ => false end) /\
+  m_er m = (match p with PEnded => true | _ => false end).
+Proof.
+  unfold mon_agrees. intros H.
+  apply andb_true_iff in H. destruct H as [H H3].
+  apply andb_true_iff in H. destruct H as [H1 H2].
+  apply eqb_prop in H1, H2, H3. auto.
+Qed.
+
+Lemma quiet_inv m : mon_quiet m = true -> m_run m = false /\ m_starting m = false.
+Proof.
+  unfold mon_quiet. intros H. apply andb_true_iff in H. destruct H as [H1 H2].
+  apply negb_true_iff in H1, H2. auto.
+Qed.
+
+Lemma qinv_cases s :
+  qinv s = true ->
+  (rs s = RNotInit /\ ps s = PNotInit /\ worker s = WNone) \/
+  (rs s = RInit /\ ps s = PInit /\ worker s = WAlive) \/
+  (rs s = RStopped /\ ps s = PStarted /\ worker s = WAlive) \/
+  (rs s = REnded /\ ps s = PEnded /\ worker s = WFinal).
+Proof.
+  unfold qinv, qstate_ok. destruct (rs s), (ps s), (worker s); intros H; try discriminate; auto 10.
+Qed.
+
+Lemma qinv_not_running s : qinv s = true -> running s = false.
+Proof.
+  intros H. unfold running.
+  destruct (qinv_cases s H) as [[-> _]|[[-> _]|[[-> _]|[-> _]]]]; reflexivity.
+Qed.
+
+Definition cap (s : sim) (bz : Z) (i : bool) : Z * bool :=
+  if bz >? end_time s then (end_time s, true) else (bz, i).
+
+Definition start_repl (s1 : sim) : sim :=
+  match ps s1 with
+  | PInit => set_ps PStarted (emit (NStartRepl (clock s1)) s1)
+  | _ => s1
+  end.
+
+Lemma do_start_eq fuel p s bz i :
+  start_checks s = true -> (bz <? clock s) = false ->
+  do_start fuel p s (TNum bz) i =
+  (worker_run fuel p
+     (emit NStarting
+        (start_repl (set_rs RStarting (set_incl (snd (cap s bz i)) (set_bound (fst (cap s bz i)) s))))),
+   ResOk).
+Proof.
+  intros H1 H2. unfold do_start, cap, start_repl. rewrite H1, H2.
+  destruct (bz >? end_time s); reflexivity.
+Qed.
+
+Lemma start_checks_inv s :
+  start_checks s = true ->
+  running s = false /\ (exists r, rep s = Some r) /\ ps_runnable (ps s) = true /\
+  clock s < end_time s.
+Proof.
+  unfold start_checks. intros H.
+  apply andb_true_iff in H. destruct H as [H H5]. apply andb_true_iff in H. destruct H as [H H4].
+  apply andb_true_iff in H. destruct H as [H H3]. apply andb_true_iff in H. destruct H as [H1 H2].
+  apply negb_true_iff in H1. apply Z.ltb_lt in H5.
+  split; [exact H1|]. split; [destruct (rep s) as [r|]; [exists r; reflexivity|discriminate]|].
+  split; [destruct (ps s); auto|exact H5].
+Qed.
+
+Lemma do_start_QI fuel p s m b i s1 res :
+  QI s m -> do_start fuel p s b i = (s1, res) ->
+  exists m1, mon_feed m (new_ntfs s s1) = Some m1 /\ QI s1 m1.
+Proof.
+  intros Q H. destruct res.
+  2:{ apply do_start_refused in H. subst s1. exists m. split; [|exact Q].
+      unfold new_ntfs. rewrite Nat.sub_diag. reflexivity. }
+  pose proof (do_start_res fuel p s b i) as Hres. rewrite H in Hres. cbn [snd] in Hres.
+  destruct (start_checks s) eqn:Hc; [|discriminate].
+  destruct b as [bz|]; [|discriminate].
+  destruct (bz <? clock s) eqn:Hb; [discriminate|]. clear Hres.
+  rewrite (do_start_eq fuel p s bz i Hc Hb) in H. injection H as H1. subst s1.
+  apply Z.ltb_ge in Hb.
+  destruct (start_checks_inv s Hc) as [Hrun [[r Hrep] [Hps Hend]]].
+  destruct Q as [Q1 Q2 Q3 Q4 Q5 Q6].
+  destruct (agrees_inv _ _ _ Q2) as [A1 [A2 A3]].
+  destruct (quiet_inv _ Q3) as [U1 U2].
+  set (bz' := fst (cap s bz i)). set (i' := snd (cap s bz i)).
+  assert (Hbz : clock s <= bz').
+  { unfold bz', cap. destruct (bz >? end_time s); cbn [fst]; lia. }
+  assert (Hini : rs_initialized (rs s) = true).
+  { destruct (qinv_cases s Q1) as [[_ [E _]]|[[-> _]|[[-> _]|[_ [E _]]]]]; try reflexivity;
+      rewrite E in Hps; discriminate. }
+  assert (Hw : worker s = WAlive).
+  { destruct (qinv_cases s Q1) as [[_ [E _]]|[[_ [_ E]]|[[_ [_ E]]|[_ [E _]]]]]; auto;
+      rewrite E in Hps; discriminate. }
+  destruct (Q4 Hini) as [r' [Hr' Hmw]]. specialize (Q6 Hini).
+  rewrite Hini in A1.
+  set (s0 := set_rs RStarting (set_incl i' (set_bound bz' s))).
+  destruct (ps s) eqn:Eps; try discriminate.
+  - (* first start of the replication *)
+    set (sa := emit NStarting (start_repl s0)) in *.
+    assert (Esa : sa = emit NStarting (set_ps PStarted (emit (NStartRepl (clock s)) s0))).
+    { unfold sa, start_repl, s0. ssimpl. rewrite Eps. reflexivity. }
+    set (mb := mkMon true (m_w m) true false true (m_warm m) false (Some (clock s))).
+    assert (F : mon_feed m [NStartRepl (clock s); NStarting] = Some mb).
+    { cbn [mon_feed]. unfold mon_step. rewrite ?A1, ?A2, ?A3, ?U1, ?U2. cbn. reflexivity. }
+    destruct (worker_run_started fuel p sa mb) as [l [m3 [L1 [L2 L3]]]].
+    + rewrite Esa. ssimpl. exact Hw.
+    + rewrite Esa. reflexivity.
+    + rewrite Esa. unfold s0, mb. unfold warm_left in *.
+      constructor; ssimpl; cbn [m_live m_w m_sr m_run m_starting m_warm m_er m_last]; auto;
+        try (exists r'; auto); try (apply Z.leb_le; lia).
+    + rewrite Esa. unfold mb, s0. ssimpl. unfold mon_step. cbn.
+      rewrite Z.leb_refl. reflexivity.
+    + exists m3. split; [|exact L3].
+      erewrite new_ntfs_app with (l := [NStartRepl (clock s); NStarting] ++ l).
+      * rewrite mon_feed_app, F. exact L2.
+      * rewrite L1, Esa. unfold s0. ssimpl. rewrite rev_app_distr. cbn [rev app].
+        rewrite <- !app_assoc. reflexivity.
+  - (* a later start *)
+    set (sa := emit NStarting (start_repl s0)) in *.
+    assert (Esa : sa = emit NStarting s0).
+    { unfold sa, start_repl, s0. ssimpl. rewrite Eps. reflexivity. }
+    set (mb := mkMon true (m_w m) true false true (m_warm m) false (m_last m)).
+    assert (F : mon_feed m [NStarting] = Some mb).
+    { cbn [mon_feed]. unfold mon_step. rewrite ?A1, ?A2, ?A3, ?U1, ?U2. cbn. reflexivity. }
+    destruct (worker_run_started fuel p sa mb) as [l [m3 [L1 [L2 L3]]]].
+    + rewrite Esa. ssimpl. exact Hw.
+    + rewrite Esa. unfold s0. ssimpl. exact Eps.
+    + rewrite Esa. unfold s0, mb. unfold warm_left in *.
+      constructor; ssimpl; cbn [m_live m_w m_sr m_run m_starting m_warm m_er m_last]; auto;
+        try (exists r'; auto); try (apply Z.leb_le; lia).
+    + rewrite Esa. unfold mb, s0. ssimpl. unfold mon_step. cbn.
+      rewrite Q5. reflexivity.
+    + exists m3. split; [|exact L3].
+      erewrite new_ntfs_app with (l := [NStarting] ++ l).
+      * rewrite mon_feed_app, F. exact L2.
+      * rewrite L1, Esa. unfold s0. ssimpl. rewrite rev_app_distr. cbn [rev app].
+        rewrite <- !app_assoc. reflexivity.
+Qed.
+
+Lemma new_ntfs_same s : new_ntfs s s = [].
+Proof. unfold new_ntfs. rewrite Nat.sub_diag. reflexivity. Qed.
+
+Lemma step_checks_inv s :
+  step_checks s = true ->
+  running s = false /\ rs_initialized (rs s) = true /\ ps_runnable (ps s) = true /\
+  clock s < end_time s.
+Proof.
+  unfold step_checks. intros H.
+  apply andb_true_iff in H. destruct H as [H H4]. apply andb_true_iff in H. destruct H as [H H3].
+  apply andb_true_iff in H. destruct H as [H1 H2].
+  apply negb_true_iff in H1. apply Z.ltb_lt in H4.
+  split; [exact H1|]. split; [destruct (rs s); auto|]. split; [destruct (ps s); auto|exact H4].
+Qed.
+
+(* step(): START, at most one event (TIME_CHANGED always), STOP *)
+Lemma do_step_QI p s m s1 res :
+  QI s m -> do_step p s = (s1, res) ->
+  exists m1, mon_feed m (new_ntfs s s1) = Some m1 /\ QI s1 m1.
+Proof.
+  intros Q H. unfold do_step in H.
+  destruct (step_checks s) eqn:Hc.
+  2:{ injection H as <- <-. exists m. rewrite new_ntfs_same. split; [reflexivity|exact Q]. }
+  destruct (step_checks_inv s Hc) as [Hrun [Hini [Hps Hend]]].
+  destruct Q as [Q1 Q2 Q3 Q4 Q5 Q6].
+  destruct (agrees_inv _ _ _ Q2) as [A1 [A2 A3]].
+  destruct (quiet_inv _ Q3) as [U1 U2].
+  rewrite Hini in A1. destruct (Q4 Hini) as [r' [Hr' Hmw]]. specialize (Q6 Hini).
+  assert (Hw : worker s = WAlive).
+  { destruct (qinv_cases s Q1) as [[_ [E _]]|[[_ [_ E]]|[[_ [_ E]]|[_ [E _]]]]]; auto;
+      rewrite E in Hps; discriminate. }
+  (* the state and the monitor after the optional START_REPLICATION and START *)
+  set (sr := match ps s with
+             | PInit => set_ps PStarted (emit (NStartRepl (clock s)) s)
+             | _ => s end) in *.
+  set (s2 := emit (NStart (clock sr)) (set_rs RStarted sr)) in *.
+  set (pre := match ps s with PInit => [NStartRepl (clock s)] | _ => [] end ++ [NStart (clock s)]).
+  set (m2 := mkMon true (m_w m) true true false (m_warm m) false (Some (clock s))).
+  assert (F : mon_feed m pre = Some m2).
+  { unfold pre. destruct (ps s) eqn:Eps; try discriminate; cbn [app mon_feed]; unfold mon_step;
+      rewrite ?A1, ?A2, ?A3, ?U1, ?U2; cbn; rewrite ?Z.leb_refl, ?Q5; reflexivity. }
+  assert (N2 : ntfs s2 = rev pre ++ ntfs s).
+  { unfold s2, sr, pre. destruct (ps s); ssimpl; reflexivity. }
+  assert (C2 : clock s2 = clock s) by (unfold s2, sr; destruct (ps s); reflexivity).
+  assert (P2 : ps s2 = PStarted).
+  { unfold s2, sr. destruct (ps s) eqn:Eps; try discriminate; ssimpl; auto. }
+  assert (R2 : RI false s2 m2).
+  { unfold m2, warm_left in *. constructor; cbn [m_live m_w m_sr m_run m_starting m_warm m_er m_last]; auto.
+    - unfold s2, sr. destruct (ps s); ssimpl; exact Hw.
+    - exists r'. split; [|exact Hmw]. unfold s2, sr. destruct (ps s); ssimpl; exact Hr'.
+    - rewrite C2. apply Z.leb_le. lia.
+    - rewrite C2. replace (pend s2) with (pend s) by (unfold s2, sr; destruct (ps s); reflexivity).
+      unfold warm_left. cbn [m_warm]. exact Q6.
+    - discriminate. }
+  (* the event, if any *)
+  assert (E3 : exists s3 l m3,
+             (match pend s2 with
+              | [] => s2
+              | e :: r => if ev_time e >? end_time s2 then s2 else step_event p s2 e r
+              end) = s3 /\
+             ntfs s3 = rev l ++ ntfs s2 /\ mon_feed m2 l = Some m3 /\ RI false s3 m3 /\ ps s3 = PStarted).
+  { destruct (pend s2) as [|e r] eqn:Hp.
+    - exists s2, [], m2. auto.
+    - destruct (ev_time e >? end_time s2).
+      + exists s2, [], m2. auto.
+      + pose proof (ri_pi _ _ _ R2) as Hpi. rewrite Hp in Hpi.
+        destruct (PI_pop _ _ _ _ _ Hpi) as [Hce [Hwm Hpi']].
+        set (a := emit (NTime (ev_time e)) (set_pend r s2)).
+        set (b := set_clock (ev_time e) a).
+        set (mt := mkMon true (m_w m2) true true false (m_warm m2) false (Some (ev_time e))).
+        assert (Ft : mon_step m2 (NTime (ev_time e)) = Some mt).
+        { unfold mon_step, m2. cbn. rewrite C2 in Hce.
+          destruct (Z.leb_spec (clock s) (ev_time e)); [reflexivity|lia]. }
+        assert (Rb : RI false b mt).
+        { destruct R2 as [G1 G2 G3 G4 G5 G6 G7 G8 G9 G10 G11].
+          unfold b, a, mt, warm_left in *.
+          constructor; ssimpl; cbn [m_live m_w m_sr m_run m_starting m_warm m_er m_last] in *; auto.
+          - apply Z.leb_le. lia.
+          - unfold warm_left in *. cbn [m_warm] in *.
+            eapply PI_weaken; [exact Hpi'|]. destruct (is_warm e); lia.
+          - discriminate. }
+        assert (Hw0 : is_warm e = true -> clock b = m_w mt /\ m_warm mt = false).
+        { intros E. destruct (Hwm E) as [E1 E2]. unfold b, mt, m2, warm_left in *. ssimpl.
+          cbn [m_w m_warm] in *. split; [exact E1|]. destruct (m_warm m); [lia|reflexivity]. }
+        assert (Hw1 : is_warm e = true -> PI (clock b) (m_w mt) 0 (pend b)).
+        { intros E. destruct (Hwm E) as [E1 E2]. unfold b, a, mt. ssimpl. cbn [m_w].
+          rewrite E in Hpi'. eapply PI_weaken; [exact Hpi'|].
+          unfold warm_left. destruct (m_warm m2); lia. }
+        assert (Hmd : InStep <> InConstruct) by discriminate.
+        destruct (exec_event_RI false InStep p b e mt Hmd Rb Hw0 Hw1) as [l [m1 [L1 [L2 [L3 [_ [L4 _]]]]]]].
+        exists (fst (exec_event InStep p b e)), (NTime (ev_time e) :: l), m1.
+        split; [reflexivity|]. split; [|split; [|split; [exact L3|]]].
+        * rewrite L1. unfold b, a. ssimpl. cbn [rev]. rewrite <- app_assoc. reflexivity.
+        * cbn [mon_feed]. rewrite Ft. exact L2.
+        * rewrite L4. unfold b, a. ssimpl. exact P2. }
+  destruct E3 as [s3 [l [m3 [E3 [N3 [F3 [R3 P3]]]]]]].
+  rewrite E3 in H. injection H as <- <-.
+  destruct (RI_stop_SI false s3 m3 R3) as [F4 S4].
+  set (c := set_rs RStopped (emit (NStop (clock s3)) s3)) in *.
+  exists (mkMon true (m_w m3) true false false (m_warm m3) false (Some (clock s3))).
+  split.
+  - erewrite new_ntfs_app with (l := pre ++ l ++ [NStop (clock s3)]).
+    + rewrite mon_feed_app, F, mon_feed_app, F3. exact F4.
+    + unfold c. ssimpl. rewrite N3, N2. rewrite !rev_app_distr. cbn [rev app].
+      rewrite <- !app_assoc. reflexivity.
+  - destruct S4 as [S1 S2 S3 S4 S5 S6 S7 S8 S9 S10 S11].
+    assert (Pc : ps c = PStarted) by (unfold c; ssimpl; exact P3).
+    constructor; auto.
+    + unfold qinv. rewrite S6, Pc, S8. reflexivity.
+    + unfold mon_agrees. rewrite S6, Pc. reflexivity.
+Qed.
+
+Lemma do_end_repl_QI fuel p s m s1 res :
+  QI s m -> do_end_repl fuel p s = (s1, res) ->
+  exists m1, mon_feed m (new_ntfs s s1) = Some m1 /\ QI s1 m1.
+Proof.
+  intros Q H. unfold do_end_repl in H.
+  destruct (ps s) eqn:Eps;
+    try (injection H as <- <-; exists m; rewrite new_ntfs_same; split; [reflexivity|exact Q]).
+  destruct Q as [Q1 Q2 Q3 Q4 Q5 Q6].
+  destruct (agrees_inv _ _ _ Q2) as [A1 [A2 A3]].
+  destruct (quiet_inv _ Q3) as [U1 U2].
+  assert (Hrs : rs s = RStopped /\ worker s = WAlive).
+  { destruct (qinv_cases s Q1) as [[_ [E _]]|[[_ [E _]]|[[E1 [_ E2]]|[_ [E _]]]]]; auto; congruence. }
+  destruct Hrs as [Hrs Hw]. rewrite Hrs in *. cbn in A1.
+  destruct (Q4 eq_refl) as [r' [Hr' Hmw]]. specialize (Q6 eq_refl).
+  set (sa := if clock s <? end_time s then set_clock (end_time s) s else s) in *.
+  set (sb := set_pend [] (set_ps PEnding sa)) in *.
+  assert (Hca : clock s <= clock sa).
+  { unfold sa. destruct (Z.ltb_spec (clock s) (end_time s)); ssimpl; lia. }
+  assert (S : SI sb m).
+  { rewrite Eps in *. constructor; auto.
+    - unfold sb, sa. destruct (clock s <? end_time s); ssimpl; exact Hrs.
+    - unfold sb. ssimpl. exact Hw || (unfold sa; destruct (clock s <? end_time s); ssimpl; exact Hw).
+    - exists r'. split; [|exact Hmw]. unfold sb, sa. destruct (clock s <? end_time s); ssimpl; exact Hr'.
+    - unfold sb. ssimpl. eapply le_last_trans; [exact Q5|exact Hca].
+    - unfold sb. ssimpl. apply PI_nil. }
+  assert (Ew : worker_run fuel p sb = worker_ending sb).
+  { unfold worker_run.
+    replace (worker sb) with WAlive
+      by (unfold sb, sa; destruct (clock s <? end_time s); ssimpl; symmetry; exact Hw).
+    replace (ps sb) with PEnding by reflexivity. reflexivity. }
+  rewrite Ew in H. injection H as <- <-.
+  destruct (worker_ending_QI sb m S) as [l [m' [L1 [L2 L3]]]].
+  exists m'. split; [|exact L3].
+  erewrite new_ntfs_app with (l := l); [exact L2|].
+  rewrite L1. unfold sb, sa. destruct (clock s <? end_time s); ssimpl; reflexivity.
+Qed.
+
+Lemma do_cleanup_QI s : QI (do_cleanup s) mon_dead.
+Proof.
+  unfold do_cleanup. constructor; ssimpl; cbn; auto; discriminate.
+Qed.
+
+Lemma do_init_QI p s m r s1 res :
+  QI s m -> do_init p s r = (s1, res) ->
+  exists m1, mon_feed (mon_reset (CInit r) res m) (new_ntfs s s1) = Some m1 /\ QI s1 m1.
+Proof.
+  intros Q H. unfold do_init in H.
+  destruct (running s) eqn:Hrun.
+  { injection H as <- <-. exists m. rewrite new_ntfs_same. split; [reflexivity|exact Q]. }
+  cbv zeta in H.
+  set (s0 := set_pend [] s) in *.
+  set (sc := match worker s0 with WNone => s0 | _ => do_cleanup s0 end) in *.
+  set (s2 := set_created [] (set_clock (r_start r) (set_rep (Some r) (set_worker WAlive sc)))) in *.
+  pose proof (exec_actions_hstep InConstruct (body p 0) s2) as Hh.
+  pose proof (exec_actions_construct (body p 0) s2) as [Hc1 Hc2].
+  destruct (exec_actions InConstruct s2 (body p 0)) as [s3 failed]. cbn [fst] in *.
+  injection H as <- <-.
+  assert (N2 : ntfs s2 = ntfs s).
+  { unfold s2, sc, s0, do_cleanup. destruct (worker (set_pend [] s)); reflexivity. }
+  assert (P2 : pend s2 = []).
+  { unfold s2, sc, s0, do_cleanup. destruct (worker (set_pend [] s)); reflexivity. }
+  destruct Hh as [H1 H2 H3 H4 H5 H6 H7 H8 H9 H10 H11].
+  assert (C2 : clock s2 = r_start r) by reflexivity.
+  assert (Hpi : PI (r_start r) (r_warm r) 0 (pend s3)).
+  { rewrite <- C2. apply H11. rewrite P2. apply PI_nil. }
+  set (s4 := if failed then raise_flag s3 else s3) in *.
+  set (s5 := set_ps PInit (set_rs RInit s4)) in *.
+  assert (F5 : clock s5 = r_start r /\ pend s5 = pend s3 /\ ntfs s5 = ntfs s /\ worker s5 = WAlive /\
+               rep s5 = Some r).
+  { unfold s5, s4. destruct failed; ssimpl; rewrite H1, Hc2, N2, H3, H4; auto. }
+  destruct F5 as [F1 [F2 [F3 [F4 F5]]]].
+  exists (mon_fresh (r_warm r)). cbn [mon_reset].
+  change (clock s5) with (clock s4) in *.
+  destruct (r_warm r <? clock s4) eqn:Hwm.
+  - split.
+    + erewrite new_ntfs_app with (l := []); [reflexivity|]. ssimpl. exact F3.
+    + constructor; ssimpl; auto.
+      * unfold qinv. ssimpl. rewrite F4. reflexivity.
+      * intros _. exists r. auto.
+      * intros _. cbn [m_w mon_fresh warm_left m_warm].
+        change (clock s5) with (clock s4). rewrite F1, F2.
+        eapply PI_weaken; [exact Hpi|lia].
+  - apply Z.ltb_ge in Hwm. split.
+    + erewrite new_ntfs_app with (l := []); [reflexivity|]. ssimpl. exact F3.
+    + constructor; ssimpl; auto.
+      * unfold qinv. ssimpl. rewrite F4. reflexivity.
+      * intros _. exists r. auto.
+      * intros _. cbn [m_w mon_fresh warm_left m_warm].
+        change (clock s5) with (clock s4). change (pend s4) with (pend s5). rewrite F2.
+        apply PI_ins_warm; [rewrite F1; exact Hpi|exact Hwm|reflexivity].
+Qed.
+
+Theorem do_cmd_QI fuel p s m c s1 res :
+  QI s m -> do_cmd fuel p s c = (s1, res) ->
+  exists m1, mon_feed (mon_reset c res m) (new_ntfs s s1) = Some m1 /\ QI s1 m1.
+Proof.
+  intros Q H. destruct c; cbn [do_cmd] in H.
+  - eapply do_init_QI; eassumption.
+  - injection H as <- <-. exists m. rewrite new_ntfs_same. split; [reflexivity|exact Q].
+  - cbn [mon_reset]. destruct (rep s) as [r|].
+    + eapply do_start_QI; eassumption.
+    + injection H as <- <-. exists m. rewrite new_ntfs_same. split; [reflexivity|exact Q].
+  - cbn [mon_reset]. eapply do_step_QI; eassumption.
+  - rewrite (qinv_not_running s (qi_q _ _ Q)) in H. injection H as <- <-.
+    exists m. rewrite new_ntfs_same. split; [reflexivity|exact Q].
+  - cbn [mon_reset]. eapply do_start_QI; eassumption.
+  - cbn [mon_reset]. eapply do_start_QI; eassumption.
+  - cbn [mon_reset]. eapply do_end_repl_QI; eassumption.
+  - injection H as <- <-. exists mon_dead. cbn [mon_reset].
+    erewrite new_ntfs_app with (l := []); [split; [reflexivity|apply do_cleanup_QI]|].
+    reflexivity.
+Qed.
+
+(* ------------------------------------------------------------------ *)
+(** * The theorems about whole command lists *)
+
+Theorem lifecycle_ok_QI fuel p cs : forall s m,
+  QI s m -> lifecycle_ok fuel p s m cs = true.
+Proof.
+  induction cs as [|c r IH]; intros s m Q; cbn [lifecycle_ok]; [reflexivity|].
+  destruct (do_cmd fuel p s c) as [s1 res] eqn:E.
+  destruct (do_cmd_QI fuel p s m c s1 res Q E) as [m1 [F Q1]].
+  rewrite F. rewrite (qi_quiet _ _ Q1), (qi_q _ _ Q1), (qi_agree _ _ Q1). cbn [andb].
+  apply IH. exact Q1.
+Qed.
+
+(* the notification stream of every command list is accepted by the monitor,
+   and after every command the state invariants hold *)
+Theorem stream_wf fuel p st cs :
+  lifecycle_ok fuel p (init_sim st) mon_dead cs = true.
+Proof. apply lifecycle_ok_QI. apply QI_init. Qed.
+
+(* reachable states: what run_cmds produces from the initial state *)
+Definition reachable (fuel : nat) (p : program) (st : strategy) (s : sim) : Prop :=
+  exists cs, s = fst (run_cmds fuel p (init_sim st) cs).
+
+Lemma run_cmds_QI fuel p cs : forall s m,
+  QI s m -> exists m', QI (fst (run_cmds fuel p s cs)) m'.
+Proof.
+  induction cs as [|c r IH]; intros s m Q; cbn [run_cmds].
+  - exists m. exact Q.
+  - destruct (do_cmd fuel p s c) as [s1 res] eqn:E.
+    destruct (do_cmd_QI fuel p s m c s1 res Q E) as [m1 [_ Q1]].
+    destruct (IH s1 m1 Q1) as [m' Q'].
+    destruct (run_cmds fuel p s1 r) as [s2 sn]. cbn [fst] in *. exists m'. exact Q'.
+Qed.
+
+Lemma reachable_QI fuel p st s : reachable fuel p st s -> exists m, QI s m.
+Proof.
+  intros [cs ->]. apply (run_cmds_QI fuel p cs _ _ (QI_init st)).
+Qed.
+
+Theorem reachable_qinv fuel p st s : reachable fuel p st s -> qinv s = true.
+Proof. intros H. destruct (reachable_QI _ _ _ _ H) as [m Q]. exact (qi_q _ _ Q). Qed.
+
+Theorem accept_refuse_table fuel p st s c :
+  reachable fuel p st s -> snd (do_cmd fuel p s c) = table_of s c.
+Proof.
+  intros H. destruct (reachable_QI _ _ _ _ H) as [m Q].
+  apply accept_refuse_table_inv. intros Hi.
+  destruct (qi_rep _ _ Q Hi) as [r [Hr _]]. congruence.
+Qed.
+
+(* ENDED is absorbing: the run state is ENDED too, the run thread has
+   terminated, and start / step / stop / bounded runs / end_replication are
+   refused (so, by refused_changes_nothing, leave everything as it is) *)
+Definition leaves_ended (c : cmd) : bool :=
+  match c with CInit _ | CCleanup => true | _ => false end.
+
+Theorem ended_absorbing fuel p st s :
+  reachable fuel p st s -> ps s = PEnded ->
+  rs s = REnded /\ worker s = WFinal /\ alive_count s = 0%nat /\
+  forall c, leaves_ended c = false -> do_cmd fuel p s c = (s, ResRefused).
+Proof.
+  intros H Hps. pose proof (reachable_qinv _ _ _ _ H) as Q.
+  destruct (qinv_cases s Q) as [[_ [E _]]|[[_ [E _]]|[[_ [E _]]|[E1 [_ E2]]]]]; try congruence.
+  split; [exact E1|]. split; [exact E2|]. split; [unfold alive_count; rewrite E2; reflexivity|].
+  intros c Hc.
+  pose proof (accept_refuse_table fuel p st s c H) as T.
+  assert (R : snd (do_cmd fuel p s c) = ResRefused).
+  { rewrite T. unfold table_of. rewrite E1, Hps. destruct c; try discriminate; reflexivity. }
+  destruct (do_cmd fuel p s c) as [s' res] eqn:E. cbn [snd] in R. subst res.
+  apply refused_changes_nothing in E. subst s'. reflexivity.
+Qed.
+
+(* cleanup always terminates the run thread and resets both states *)
+Theorem cleanup_terminates_worker fuel p s :
+  let s' := fst (do_cmd fuel p s CCleanup) in
+  snd (do_cmd fuel p s CCleanup) = ResOk /\
+  worker s' = WNone /\ alive_count s' = 0%nat /\ rs s' = RNotInit /\ ps s' = PNotInit.
+Proof. cbn. auto. Qed.
+
+(* the run thread is alive exactly in the states INITIALIZED and STARTED *)
+Theorem alive_iff_runnable fuel p st s :
+  reachable fuel p st s ->
+  alive_count s = (if ps_runnable (ps s) then 1%nat else 0%nat).
+Proof.
+  intros H. pose proof (reachable_qinv _ _ _ _ H) as Q. unfold alive_count.
+  destruct (qinv_cases s Q) as [[_ [-> ->]]|[[_ [-> ->]]|[[_ [-> ->]]|[_ [-> ->]]]]]; reflexivity.
+Qed.
+
+(* TIME_CHANGED carries the time of the event that is executed next.  For
+   every state: one pass of the run loop emits TIME_CHANGED(t) for the time t of
+   the first pending event (exactly when t differs from the clock), then
+   executes that very event with the clock at t; whatever else is notified in
+   the pass is the WARMUP of the warm-up event or STOPPING from the handler.
+   [run_loop] is the iteration of [take_event] (Model.v), [step] uses
+   [step_event], which always notifies. *)
+Lemma exec_event_emits md p s e :
+  exists l, ntfs (fst (exec_event md p s e)) = rev l ++ ntfs s /\
+            trace (fst (exec_event md p s e)) = (e, clock s) :: trace s /\
+            (forall n, In n l -> n = NStopping \/ n = NWarmup (clock s)).
+Proof.
+  unfold exec_event. destruct (ev_h e) as [|h].
+  - exists [NWarmup (clock s)]. cbn [fst]. ssimpl. split; [reflexivity|]. split; [reflexivity|].
+    intros n [<-|[]]. right. reflexivity.
+  - set (s1 := set_trace ((e, clock s) :: trace s) s).
+    pose proof (exec_actions_hstep md (body p h) s1) as Hh.
+    destruct Hh as [_ _ _ _ _ _ _ H8 _ [k [Hk _]] _].
+    exists (repeat NStopping k). rewrite rev_repeat. split; [exact Hk|]. split; [exact H8|].
+    intros n Hn. left. apply repeat_spec in Hn. exact Hn.
+Qed.
+
+Theorem time_changed_is_next_event p s e r :
+  exists l,
+    ntfs (take_event p s e r) = rev l ++ rev (tc_part s e) ++ ntfs s /\
+    trace (take_event p s e r) = (e, ev_time e) :: trace s /\
+    (forall n, In n l -> n = NStopping \/ n = NWarmup (ev_time e)).
+Proof.
+  unfold take_event.
+  set (s1 := if ev_time e =? clock (set_pend r s) then set_pend r s
+             else emit (NTime (ev_time e)) (set_pend r s)).
+  set (s2 := set_clock (ev_time e) s1).
+  destruct (exec_event_emits InRun p s2 e) as [l [L1 [L2 L3]]].
+  assert (N2 : ntfs s2 = rev (tc_part s e) ++ ntfs s).
+  { unfold s2, s1, tc_part. ssimpl. destruct (ev_time e =? clock s); reflexivity. }
+  assert (T2 : trace s2 = trace s).
+  { unfold s2, s1. ssimpl. destruct (ev_time e =? clock s); reflexivity. }
+  change (clock s2) with (ev_time e) in *.
+  destruct (exec_event InRun p s2 e) as [s3 failed]. cbn [fst] in *.
+  exists l. rewrite N2 in L1. rewrite T2 in L2.
+  destruct failed; [destruct (strat s3)|]; ssimpl; auto.
+Qed.
+
+Theorem step_time_changed_is_event p s e r :
+  exists l,
+    ntfs (step_event p s e r) = rev l ++ NTime (ev_time e) :: ntfs s /\
+    trace (step_event p s e r) = (e, ev_time e) :: trace s /\
+    (forall n, In n l -> n = NStopping \/ n = NWarmup (ev_time e)).
+Proof.
+  unfold step_event.
+  set (b := set_clock (ev_time e) (emit (NTime (ev_time e)) (set_pend r s))).
+  destruct (exec_event_emits InStep p b e) as [l [L1 [L2 L3]]].
+  exists l. auto.
+Qed.
+
+Lemma run_loop_unfold f p s :
+  run_loop (S f) p s =
+  if running s then
+    match pend s with
+    | [] => stop_at_bound s
+    | e :: r => if beyond s e then stop_at_bound s else run_loop f p (take_event p s e r)
+    end
+  else s.
+Proof. reflexivity. Qed.
